@@ -296,12 +296,7 @@ class Ctx:
         args = self.resolve_args(sub.get("args", {}))
         try:
             res = call(sub["fn"], **args)
-            self.harness_depth += 1
-            try:
-                dig = result_digest(res)
-            finally:
-                self.harness_depth -= 1
-            out = ["ok", dig]
+            out = ["ok", self.digest_of(res)]
         except (SimFault, HarnessBound, Violation):
             raise
         except Exception as e:  # cola's own refusal is a result
@@ -365,38 +360,114 @@ class Ctx:
                 "rng_touched_by": world.RNG_TOUCH[-6:]})
 
     # ------------------------------------------------------------------------ invariants
-    def check_invariants(self, sid, after):
+    def snapshot_eval(self, fn):
+        """Evaluate fn() in a forked snapshot of this process and return its JSON result.
+        Observations (to_dense, flatten/unflatten, products) are made on the snapshot so that the
+        observer never perturbs the system under test (an operator that is changed by being used
+        must not be 'primed' by the harness' own fingerprinting)."""
+        r, w = os.pipe()
+        pid = os.fork()
+        if pid == 0:
+            code = 0
+            try:
+                os.close(r)
+                world.CRUMB_FD = None
+                try:
+                    ALLOC.disarm()
+                except Exception:
+                    pass
+                self.harness_depth += 1
+                try:
+                    out = {"ok": fn()}
+                except Violation as v:
+                    out = {"viol": [v.prop, v.inv, v.detail]}
+                except BaseException as e:  # noqa
+                    out = {"err": "".join(traceback.format_exception(type(e), e, e.__traceback__))[-2500:]}
+                data = json.dumps(out, default=str).encode()
+                off = 0
+                while off < len(data):
+                    off += os.write(w, data[off:off + 65536])
+            except BaseException:  # noqa
+                code = 3
+            finally:
+                os._exit(code)
+        os.close(w)
+        chunks = []
+        while True:
+            b = os.read(r, 1 << 16)
+            if not b:
+                break
+            chunks.append(b)
+        os.close(r)
+        _, st = os.waitpid(pid, 0)
+        if not chunks:
+            raise RuntimeError("observer snapshot died (wait status %d)" % st)
+        out = json.loads(b"".join(chunks).decode())
+        if "viol" in out:
+            raise Violation(*out["viol"])
+        if "err" in out:
+            raise RuntimeError("observer snapshot failed:\n" + out["err"])
+        return out["ok"]
+
+    def digest_of(self, res):
+        """Result digest; results that contain operators are fingerprinted on a snapshot (C18)."""
+        if self.prop == "C18" and _first_op(res) is not None:
+            return self.snapshot_eval(lambda: result_digest(res))
         self.harness_depth += 1
         try:
-            if self.prop == "C17":
-                if not self.model.in_sync():
-                    raise Violation("C17", "I-RNG", {
-                        "what": "process-wide NumPy generator state differs from the reference model "
-                                "(cola read/advanced/reseeded it)",
-                        "after": after, "rng_touched_by": world.RNG_TOUCH[-8:]})
-            if self.prop == "C18":
-                bad = self.ledger.check()
-                if bad:
-                    raise Violation("C18", "I-INPUT", {
-                        "what": "caller-owned array changed (bytes/shape/strides/flags)", "arrays": bad[:4],
-                        "after": after})
-                for name, (obj, dig) in self.algs.items():
-                    if self.alg_digest(obj) != dig:
-                        raise Violation("C18", "I-INPUT", {
-                            "what": "caller-owned algorithm object was altered by a call", "alg": name,
-                            "cls": type(obj).__name__, "after": after})
-                for obj, dig in self.auto_defaults:
-                    if self.alg_digest(obj) != dig:
-                        raise Violation("C18", "I-INPUT", {
-                            "what": "a shared default Auto() instance of a public signature was altered",
-                            "attrs": sorted(vars(obj))[:6], "after": after})
-                for slot, e in self.pool.items():
-                    self.check_entry(slot, e, after)
+            return result_digest(res)
         finally:
             self.harness_depth -= 1
 
+    def check_invariants(self, sid, after):
+        if self.prop == "C17":
+            if not self.model.in_sync():
+                raise Violation("C17", "I-RNG", {
+                    "what": "process-wide NumPy generator state differs from the reference model "
+                            "(cola read/advanced/reseeded it)",
+                    "after": after, "rng_touched_by": world.RNG_TOUCH[-8:]})
+            return
+        before = Counter(self.stats)
+
+        def body():
+            new = {}
+            for slot, e in self.pool.items():
+                if e.fp is None:
+                    e.fp = json.loads(json.dumps(rm.op_fingerprint(e.op)))
+                    e.params = json.loads(json.dumps(rm.params_digest(e.op)))
+                    new[slot] = [e.fp, e.params]
+            self._invariants_c18(after)
+            delta = {k: v - before.get(k, 0) for k, v in self.stats.items() if v != before.get(k, 0)}
+            return {"new": new, "stats": delta}
+
+        out = self.snapshot_eval(body)
+        for slot, (fp, params) in out["new"].items():
+            self.pool[slot].fp, self.pool[slot].params = fp, params
+        for k, v in out["stats"].items():
+            self.stats[k] += v
+        self.stats["observer_snapshots"] += 1
+
+    def _invariants_c18(self, after):
+        bad = self.ledger.check()
+        if bad:
+            raise Violation("C18", "I-INPUT", {
+                "what": "caller-owned array changed (bytes/shape/strides/flags)", "arrays": bad[:4],
+                "after": after})
+        for name, (obj, dig) in self.algs.items():
+            if self.alg_digest(obj) != dig:
+                raise Violation("C18", "I-INPUT", {
+                    "what": "caller-owned algorithm object was altered by a call", "alg": name,
+                    "cls": type(obj).__name__, "after": after})
+        for obj, dig in self.auto_defaults:
+            if self.alg_digest(obj) != dig:
+                raise Violation("C18", "I-INPUT", {
+                    "what": "a shared default Auto() instance of a public signature was altered",
+                    "attrs": sorted(vars(obj))[:6], "after": after})
+        for slot, e in self.pool.items():
+            self.check_entry(slot, e, after)
+
     def check_entry(self, slot, e, after):
-        fp = rm.op_fingerprint(e.op)
+        fp = json.loads(json.dumps(rm.op_fingerprint(e.op)))
         if fp != e.fp:
             diff = [k for k in fp if fp[k] != e.fp.get(k)]
             raise Violation("C18", "I-OP", {
@@ -404,7 +475,7 @@ class Ctx:
                 "slot": slot, "changed": diff, "was": {k: e.fp[k] for k in diff}, "now": {k: fp[k] for k in diff},
                 "after": after})
         if e.structural:
-            pd = rm.params_digest(e.op)
+            pd = json.loads(json.dumps(rm.params_digest(e.op)))
             if pd != e.params:
                 raise Violation("C18", "I-OP", {
                     "what": "parameter arrays of pool operator changed", "slot": slot, "after": after})
@@ -419,7 +490,7 @@ class Ctx:
                                               "after": after})
         try:
             op2 = unflatten(leaves)
-            fp2 = rm.op_fingerprint(op2)
+            fp2 = json.loads(json.dumps(rm.op_fingerprint(op2)))
         except Exception as ex:
             raise Violation("C18", "I-FLAT", {"what": "unflatten(leaves) raised", "exc": type(ex).__name__,
                                               "slot": slot, "after": after})
@@ -473,7 +544,7 @@ class Ctx:
                 raise Violation("C18", "I-FLAT", {
                     "what": "substituting one leaf did not change precisely that parameter", "slot": slot,
                     "leaf": j, "after": after})
-            if rm.params_digest(op) != e.params:
+            if json.loads(json.dumps(rm.params_digest(op))) != e.params:
                 raise Violation("C18", "I-FLAT", {"what": "leaf substitution altered the original operator",
                                                   "slot": slot, "after": after})
             self.stats["flatten_leaf_substituted"] += 1
@@ -584,17 +655,11 @@ class Ctx:
         if not rm.is_op(op):
             return op
         if record:
-            ALLOC.pause()
-            self.harness_depth += 1
-            try:
-                structural = step.get("structural", True) and all(
-                    self.pool[s].structural for s in recipe_slots(step["recipe"]) if s in self.pool)
-                e = Entry(op, rm.op_fingerprint(op), rm.params_digest(op), structural, step["recipe"], step["id"])
-                self.pool[step["slot"]] = e
-                self.stats["ops_made:" + type(op).__name__.split("[")[0]] += 1
-            finally:
-                self.harness_depth -= 1
-                ALLOC.resume()
+            structural = step.get("structural", True) and all(
+                self.pool[s].structural for s in recipe_slots(step["recipe"]) if s in self.pool)
+            # fingerprint is taken by the observer snapshot that follows the step (never by using the operator here)
+            self.pool[step["slot"]] = Entry(op, None, None, structural, step["recipe"], step["id"])
+            self.stats["ops_made:" + type(op).__name__.split("[")[0]] += 1
         return op
 
     def op_call(self, step, out_step):
@@ -840,19 +905,9 @@ class Ctx:
                     self.stats["alloc_fail_absorbed"] += 1
                 outcome = ["faulted-returned", ""]
             else:
-                self.harness_depth += 1
-                try:
-                    outcome = ["ok", result_digest(res)]
-                finally:
-                    self.harness_depth -= 1
+                outcome = ["ok", self.digest_of(res)]
                 if store and rm.is_op(_first_op(res)) and store not in self.pool:
-                    op = _first_op(res)
-                    self.harness_depth += 1
-                    try:
-                        self.pool[store] = Entry(op, rm.op_fingerprint(op), rm.params_digest(op), False,
-                                                 {"k": "result", "of": step["fn"]}, sid)
-                    finally:
-                        self.harness_depth -= 1
+                    self.pool[store] = Entry(_first_op(res), None, None, False, {"k": "result", "of": step["fn"]}, sid)
         self._materialise(sid, cur, f, k)
         self._last_used = cur.used
         self._last_ncb = cur.ncb_top
